@@ -210,8 +210,15 @@ def source_protect(kind, targets, cert_variant=None):
             tmpl = SecOperation(sec_type='bib', role='source', priv_key_id=KID, content_alg=algorithms.HMAC256,
                                 content_key=bytes(range(100, 132)))
         cose.sym_key_store[KID] = key
-        cose.sec_assoc.append(SecAssociation(src_pat=re.compile(re.escape(SRC) + '.*'), dst_pat=re.compile('.*'),
-                                             tgt_blk_types=tgt_types, templates=[tmpl]))
+        if list(targets) == [7, 1]:
+            # two associations, the one for the higher block number first: the operations are
+            # then not in ascending order of target block number
+            for typ in (7, 1):
+                cose.sec_assoc.append(SecAssociation(src_pat=re.compile(re.escape(SRC) + '.*'), dst_pat=re.compile('.*'),
+                                                     tgt_blk_types=[typ], templates=[tmpl]))
+        else:
+            cose.sec_assoc.append(SecAssociation(src_pat=re.compile(re.escape(SRC) + '.*'), dst_pat=re.compile('.*'),
+                                                 tgt_blk_types=tgt_types, templates=[tmpl]))
     world.send(impl_container(plain_bundle()))
     world.quiesce()
     sent = world.sent()
@@ -614,6 +621,7 @@ def scenarios(tier):
             out.append(dict(name=nm, kind='enum', runner='run_source', params=prm, weight=10))
     add('mac0', 'mac0', parts=2)
     add('mac0+age', 'mac0', targets=(1, 7), parts=2)
+    add('mac0/age-association-first', 'mac0', targets=(7, 1), parts=2)
     add('mac-kw', 'mac-kw', parts=2)
     add('sign1-x5t', 'sign1-x5t', parts=3)
     add('sign1-x5chain', 'sign1-x5chain', parts=6 if tier == 'thorough' else 4)
